@@ -12,7 +12,13 @@ func InitGenesis(ctx sdk.Context, k keeper.Keeper, genState types.GenesisState, 
 	k.SetParams(ctx, genState.Params)
 	states := genState.States
 	for _, av := range states {
-		k.SetState(ctx, *av)
+		state := *av
+		if state.Burn && state.Account == nil {
+			// ExportGenesis strips the (empty) account of the burn state and State.Validate demands that;
+			// the running code dereferences state.Account for every state, so restore the in-memory shape
+			state.Account = &types.Account{}
+		}
+		k.SetState(ctx, state)
 	}
 }
 
